@@ -976,7 +976,9 @@ class FastSyncGroup(SyncGroupBase, XDP):
     """A :class:`SyncGroup` where all devices are EBPF programs"""
     license = "GPL"
 
-    properties = ArrayMap()
+    # DeviceVars are declared in this map, so all kinds of sync groups
+    # which keep them in a map need to share it
+    properties = ProcessSyncGroup.properties
     wkc_errors = properties.globalVar('I')
 
     def __init__(self, ec, devices, **kwargs):
